@@ -266,6 +266,60 @@ theorem mutation_not_for_signer (signed verifies : Addr → Payload → Sig → 
 
 end Binding
 
+/-! ### which fields the signed payload carries (the assumption behind `mutation_not_for_signer`, made explicit)
+
+A Cosmos transaction as the ante handler sees it, reduced to the fields a third party could change after signing.  The
+direct sign mode signs the encoded body and auth info — everything.  The EIP-712 routes rebuild a typed-data document
+from the decoded fields; that document has no place for a fee granter, a timeout height (current route) or extension
+options, so a transaction that sets one of those must be refused, or the field is not bound by the signature. -/
+
+structure CosTx where
+  msgs : Nat          -- the messages (an opaque code)
+  memo : Nat
+  feeAmount : Nat
+  gas : Nat
+  timeout : Nat       -- 0 = none
+  granter : Nat       -- 0 = none
+  extOpts : Nat       -- 0 = none
+  deriving Repr, DecidableEq
+
+inductive Route | direct | eip712 | eip712Legacy
+  deriving Repr, DecidableEq
+
+/-- the payload the signature is made over, per route -/
+def payload : Route → CosTx → List Nat
+  | .direct, t => [t.msgs, t.memo, t.feeAmount, t.gas, t.timeout, t.granter, t.extOpts]
+  | .eip712, t => [t.msgs, t.memo, t.feeAmount, t.gas]
+  | .eip712Legacy, t => [t.msgs, t.memo, t.feeAmount, t.gas, t.timeout]
+
+/-- what a route refuses outright because its payload cannot carry it; `refuseGranter` = the code since the repair -/
+def admitted (refuseGranter : Bool) : Route → CosTx → Bool
+  | .direct, _ => true
+  | .eip712, t => t.timeout == 0 && t.extOpts == 0 && (!refuseGranter || t.granter == 0)
+  | .eip712Legacy, t => (!refuseGranter || t.granter == 0)
+
+/-- **every field is bound**: two transactions a route admits that have the same signed payload are the same
+    transaction, up to the legacy route's own extension option (which carries the signature itself) — so changing any
+    field either changes the payload (and then `mutation_not_for_signer` applies) or makes the route refuse -/
+theorem admitted_payload_injective (r : Route) (t t' : CosTx) (h : admitted true r t = true) (h' : admitted true r t' = true)
+    (hp : payload r t = payload r t') (hx : r = .eip712Legacy → t.extOpts = t'.extOpts) : t = t' := by
+  cases t; cases t'
+  cases r <;> simp_all [payload, admitted]
+
+/-- before the repair the fee granter was bound on neither EIP-712 route: two admitted transactions with the same
+    payload that differ in who pays the fee -/
+theorem granter_unbound_counterexample :
+    let t : CosTx := { msgs := 1, memo := 0, feeAmount := 5, gas := 9, timeout := 0, granter := 0, extOpts := 0 }
+    let t' : CosTx := { t with granter := 7 }
+    admitted false .eip712 t = true ∧ admitted false .eip712 t' = true ∧ payload .eip712 t = payload .eip712 t' ∧ t ≠ t' ∧
+    admitted true .eip712 t' = false ∧ admitted true .eip712Legacy t' = false := by decide
+
+/-- all three EIP-712 signature paths refuse a transaction that names a fee granter (regenerated fact) — which is what
+    `admitted true` models -/
+theorem eip712_refuses_fee_granter : Facts.eip712FeeGranter =
+    [("eip712.decodeProtobufSignDoc", "granter-refused"), ("eip712.legacyDecodeProtobufSignDoc", "granter-refused"),
+     ("ante.LegacyEip712SigVerification.VerifySignature", "granter-refused")] := by decide
+
 /-! ### over the regenerated facts -/
 
 theorem eth_sequence_checked_per_message :
